@@ -408,7 +408,17 @@ impl Check for C04 {
         let mut hits = 0u64;
         let n = rng.range(3, 14);
         let mut steps = vec![];
-        for _ in 0..n {
+        // a tenth of the histories (default geometry): one record that fills the log file up to (or one byte around) its
+        // pre-allocated end, so that the appends after it grow the file - the crash points inside that growth
+        let file_end_at = if cfg.area == 0 && Rng::derive(seed, "C04.file_end", 0).chance(0.1) { Some(rng.range(0, 3)) } else { None };
+        for i in 0..n {
+            if Some(i) == file_end_at {
+                if let Some(pad) = gen_pad_to_file_end(&mut rng, &mut sh) {
+                    steps.push(LStep::Append { pad, kind: 0, term_up: false });
+                    steps.push(gen_append(&mut rng, &mut sh, &mut hits));
+                    continue;
+                }
+            }
             let r = rng.below(100);
             let st = if r < 25 {
                 gen_append(&mut rng, &mut sh, &mut hits)
